@@ -106,7 +106,7 @@ CORRS = [
                   "serializer refuses (unrelated class, None for an Attributes map, scalar for a token list)"),
     Corr("bind.parse", gen_parse, impl_parse, compare=cmp_parse, classify=classify_parse,
          describe="NodeParser(EventsHandler) vs model on real documents and single-point faults"),
-    Corr("bind.roundtrip", gen_roundtrip, impl_roundtrip, compare=cmp_roundtrip, classify=classify_rt,
+    Corr("bind.roundtrip", gen_roundtrip, impl_roundtrip_scoped, compare=cmp_roundtrip, classify=classify_rt,
          describe="real serialize({native,lxml}) + parse({native,lxml}) vs model generate+write+parse"),
 ]
 
